@@ -6,7 +6,7 @@ from .. import grouplab as G
 
 ID = "C06"
 LEVEL = "exploration"
-RULE = ("one content class of n paths (n<=3 quick, <=4 thorough) plus a decoy of the same size: every set partition of "
+RULE = ("one content class of n paths (n<=3 quick, <=4 thorough; 25-byte or 20000-byte files alternately, so that both the pass-through and the re-hashing code paths count replicas) plus a decoy of the same size: every set partition of "
         "the paths into inodes (hard links), every placement into roots r1/r2 (and a sub-directory), optional "
         "replacement of a path by a relative/absolute symlink to another member; x {none,-H,--isolate,-S,-S -H,-L,"
         "-L -S,--isolate -H} x {--rf-over 0..3, --rf-under 1..3, --unique} x root order; spelling sub-space: the same "
@@ -57,7 +57,7 @@ def spell(root, how, tree_root_placeholder="@TREE@"):
     raise ValueError(how)
 
 
-def structure(n, rgs, placement, sym):
+def structure(n, rgs, placement, sym, big=False):
     """rgs[i] = inode block of path i; placement[i] in {0: r1/d, 1: r2/d, 2: r1/sub/deep}; sym = None or
     (i, j, 'rel'|'abs'): path i is a symlink to path j."""
     dirs = ["r1/d", "r2/d", "r1/sub/deep"]
@@ -72,12 +72,13 @@ def structure(n, rgs, placement, sym):
             tree.append({"p": paths[i], "k": "hard", "to": paths[first_of_block[b]]})
         else:
             first_of_block[b] = i
-            tree.append({"p": paths[i], "k": "file", "c": ["lit", "same-content-of-the-class"]})
+            # big: long enough to be re-hashed (and regrouped in arrival order) by the content stage
+            tree.append({"p": paths[i], "k": "file", "c": ["base", 20000, 3] if big else ["lit", "same-content-of-the-class"]})
     if sym:
         i, j, how = sym
         tgt = ("@TREE@/" + paths[j]) if how == "abs" else "../" * paths[i].count("/") + paths[j]
         tree.append({"p": paths[i], "k": "sym", "to": tgt})
-    tree.append({"p": "r1/d/decoy", "k": "file", "c": ["lit", "other-content-of-the-clas0"]})
+    tree.append({"p": "r1/d/decoy", "k": "file", "c": ["flip", 20000, 3, 19999] if big else ["lit", "other-content-of-the-clas0"]})
     tree.append({"p": "r2/d", "k": "dir"})
     tree.append({"p": "lnk_r1", "k": "sym", "to": "r1"})
     tree.append({"p": "lnk_r2", "k": "sym", "to": "r2"})
@@ -108,7 +109,7 @@ def cases(tier, seed):
                 for sym in syms:
                     if sym and rgs[sym[0]] in [rgs[k] for k in range(n) if k != sym[0]]:
                         continue   # a symlink path cannot also be a hard link of another path
-                    tree, paths = structure(n, rgs, placement, sym)
+                    tree, paths = structure(n, rgs, placement, sym, big=(len(out) % 2 == 1))
                     cross = crosses_roots(n, rgs, placement, sym)
                     for flags in FLAGSETS:
                         if "--isolate" in flags and cross:
